@@ -147,7 +147,11 @@ if __name__ == '__main__':
     r = run_unit(a.unit, a.repo, a.mode, use_cache=not a.no_cache)
     r.pop('meta', None)
     if r['status'] != 'ok':
-        print(json.dumps(r, indent=1)[:6000])
+        print('UNDECIDED:', r.get('reason'))
+        for d in r.get('diagnostics', [])[:8]:
+            print(d)
+        for e in r.get('errors', []):
+            print('-', e['message'], '| owner:', e['owner'], '| labels:', [l['name'] for l in e['labels']], '|', e['origin'])
         sys.exit(2)
     print('verified', r['verified'], 'errors', r['n_errors'], 'wall', r['wall_s'], 'cached', r['cached'])
     for e in r['errors']:
